@@ -449,8 +449,12 @@ def s4(ctx, rep):
                 ", ".join(sorted({U(x) for x in names})), f"unknown: {bad}")
     # the sub-space check compares both predicates
     a = P.method("HyperparameterRanges", "_assert_sub_config_space")
-    s = U(a.node)
-    ok = "is_log_space(v) == is_log_space(v2)" in s and "is_reverse_log_space(v) == is_reverse_log_space(v2)" in s
+    ok = True
+    for pred in ("is_log_space", "is_reverse_log_space"):
+        hit = [c for c in walk_shallow(a.node) if isinstance(c, ast.Compare) and len(c.ops) == 1 and isinstance(c.ops[0], ast.Eq)
+               and isinstance(c.left, ast.Call) and isinstance(c.comparators[0], ast.Call) and fn_name(c.left) == pred
+               and fn_name(c.comparators[0]) == pred and U(c.left.args[0]) != U(c.comparators[0].args[0])]
+        ok = ok and len(hit) == 1
     rep.put(ok, "S4", "agreement", "_assert_sub_config_space compares the predicates get_scaling dispatches on", a, None, "")
 
 
